@@ -671,7 +671,8 @@ def _aggregate(items, planned_cells=None):
                                      "replay_case": {"kind": "cells", "runs": cases_of.get(cell, [])}}})
         # A2 drift
         icell = f"{rs[0]['base']}_INVALID@{rs[0]['noise']:g}" + (SESSION if cell.endswith(SESSION) else "")
-        if rs[0]["noise"] == LOWEST and icell in cells and rs[0]["family"] == "mock":
+        plain = f"{rs[0]['base']}@{rs[0]['noise']:g}"  # unit twins ("...x1e+07") have no drift counterpart of their own
+        if rs[0]["noise"] == LOWEST and icell in cells and rs[0]["family"] == "mock" and cell in (plain, plain + SESSION):
             inv = {r["seed"]: r for r in cells[icell]}
             pairs = [(r, inv[r["seed"]]) for r in rs if r["seed"] in inv]
             if len(pairs) < MIN_SEEDS:
